@@ -72,18 +72,19 @@ Proof.
   rewrite E. apply IH. intros q0 n0 Hin. apply (H q0 n0). right. exact Hin.
 Qed.
 
-Lemma strip_annotate pos_of old ops :
-  strip (annotate pos_of old ops) = commit_writelog (run_batch old ops).
+Lemma strip_annotate startv pos_of old ops :
+  strip (annotate startv pos_of old ops) = commit_writelog (run_batch old ops).
 Proof.
   unfold strip, annotate. rewrite map_map.
   induction (commit_writelog (run_batch old ops)) as [|[k [v|]] r IH]; cbn [map fst snd];
     [reflexivity| |]; rewrite IH; reflexivity.
 Qed.
 
-Lemma in_annotate pos_of old ops k v p :
-  In (k, Some (v, p)) (annotate pos_of old ops) ->
+Lemma in_annotate startv pos_of old ops k v p :
+  In (k, Some (v, p)) (annotate startv pos_of old ops) ->
   In (k, Some v) (commit_writelog (run_batch old ops)) /\
-  p = (if ptr_invalid old ops k then invalid_ptr else pos_of k).
+  p = (if ptr_invalid old ops k then invalid_ptr
+       else if ptr_old_root old ops k then (startv, INDEX_ROOT) else pos_of k).
 Proof.
   unfold annotate. intros H. apply in_map_iff in H as [[k0 [v0|]] [Heq Hin]]; cbn [fst snd] in Heq.
   - injection Heq as -> -> <-. split; [exact Hin|reflexivity].
@@ -91,18 +92,20 @@ Proof.
 Qed.
 
 (* served exactly when no inserted leaf carries the invalid pointer *)
-Lemma pathbadger_served_lem pos_of rootnode endv old ops :
+Lemma pathbadger_served_lem startv pos_of rootnode endv old ops :
   let new := contents (run_batch old ops) in
   NoDup (map pos_of (map fst new)) ->
   Forall (fun k => pos_of k <> (endv, INDEX_ROOT)) (map fst new) ->
-  (forall k, In k (map fst (commit_writelog (run_batch old ops))) -> ptr_invalid old ops k = false) ->
-  pb_served pos_of rootnode endv old ops = Some (commit_writelog (run_batch old ops)).
+  (forall k, In k (map fst (commit_writelog (run_batch old ops))) -> ptr_class old ops k = 0) ->
+  pb_served startv pos_of rootnode endv old ops = Some (commit_writelog (run_batch old ops)).
 Proof.
   cbv zeta. intros Hnd Hroot Hvalid. unfold pb_served.
-  pose proof (strip_annotate pos_of old ops) as Hstrip. rewrite <- Hstrip.
+  pose proof (strip_annotate startv pos_of old ops) as Hstrip. rewrite <- Hstrip.
   apply pathbadger_log_roundtrip_lem.
   intros k v p Hin. apply in_annotate in Hin as [Hin ->].
-  rewrite (Hvalid k) by (apply (in_map fst) in Hin; exact Hin).
+  assert (Hc : ptr_class old ops k = 0) by (apply Hvalid; apply (in_map fst) in Hin; exact Hin).
+  unfold ptr_class in Hc.
+  destruct (ptr_invalid old ops k); [discriminate|]. destruct (ptr_old_root old ops k); [discriminate|].
   destruct (writelog_entries_sound_lem old ops k (Some v) Hin) as [Hg _].
   exists (SLeaf k v). split; [|reflexivity]. unfold node_at.
   assert (Hk : In k (map fst (contents (run_batch old ops)))).
@@ -112,23 +115,29 @@ Proof.
   rewrite E. apply nget_end_store; assumption.
 Qed.
 
-Lemma pathbadger_unservable_lem pos_of rootnode endv old ops k v :
+Lemma pathbadger_unservable_lem startv pos_of rootnode endv old ops k v :
   let new := contents (run_batch old ops) in
-  Forall (fun k => pos_of k <> invalid_ptr) (map fst new) ->
-  endv <> VERSION_INVALID ->
-  In (k, Some v) (commit_writelog (run_batch old ops)) -> ptr_invalid old ops k = true ->
-  pb_served pos_of rootnode endv old ops = None.
+  Forall (fun k => pos_of k <> invalid_ptr /\ pos_of k <> (startv, INDEX_ROOT)) (map fst new) ->
+  endv <> VERSION_INVALID -> startv <> endv ->
+  In (k, Some v) (commit_writelog (run_batch old ops)) -> ptr_class old ops k <> 0 ->
+  pb_served startv pos_of rootnode endv old ops = None.
 Proof.
-  cbv zeta. intros Hinv Hendv Hin Hp. unfold pb_served.
-  apply (resolve_unresolvable _ _ _ _ invalid_ptr).
+  cbv zeta. intros Hinv Hendv Hse Hin Hp. unfold pb_served.
+  set (p := if ptr_invalid old ops k then invalid_ptr else (startv, INDEX_ROOT)).
+  apply (resolve_unresolvable _ _ _ _ p).
   - unfold make_internal, annotate. rewrite map_map. apply in_map_iff.
-    exists (k, Some v). cbn [fst snd]. rewrite Hp. split; [reflexivity|exact Hin].
+    exists (k, Some v). cbn [fst snd]. split; [|exact Hin]. unfold p, ptr_class in *.
+    destruct (ptr_invalid old ops k); [reflexivity|].
+    destruct (ptr_old_root old ops k); [reflexivity|congruence].
   - unfold node_at.
-    assert (E : dbkey_eqb invalid_ptr (endv, INDEX_ROOT) = false).
-    { apply dbkey_eqb_neq. unfold invalid_ptr. intros H. injection H as H1 H2. congruence. }
+    assert (E : dbkey_eqb p (endv, INDEX_ROOT) = false).
+    { apply dbkey_eqb_neq. unfold p. destruct (ptr_invalid old ops k).
+      - unfold invalid_ptr. intros H. injection H as H1 H2. congruence.
+      - intros H. injection H as H1. congruence. }
     rewrite E. apply nget_none. intros q n Hq. unfold end_store in Hq.
     apply in_map_iff in Hq as [[k0 v0] [Heq Hin0]]. cbn [fst snd] in Heq. injection Heq as <- _.
-    rewrite Forall_forall in Hinv. apply Hinv. apply (in_map fst) in Hin0. exact Hin0.
+    rewrite Forall_forall in Hinv. apply (in_map fst) in Hin0. destruct (Hinv _ Hin0) as [H1 H2].
+    unfold p. destruct (ptr_invalid old ops k); assumption.
 Qed.
 
 (* ---------- the known finding as a refuted lemma of the port ----------
@@ -148,7 +157,7 @@ Lemma pathbadger_log_unservable_refuted_lem :
            (map fst (contents (run_batch old ops))) /\
     commit_writelog (run_batch old ops) = [([99], Some [])] /\
     apply_writelog old (commit_writelog (run_batch old ops)) = contents (run_batch old ops) /\
-    pb_served pos_of rootnode endv old ops = None.
+    pb_served 2 pos_of rootnode endv old ops = None.
 Proof.
   exists rf_pos, rf_root, 3, rf_old, rf_ops.
   split; [cbn; repeat split; repeat constructor|].
@@ -160,5 +169,18 @@ Qed.
 
 (* the same batch is servable as soon as the leaf is not embedded *)
 Example rf_standalone_served :
-  pb_served rf_pos (Some (SInternal None)) 3 [([99], []); ([100], [])] rf_ops = Some [([99], Some [])].
+  pb_served 2 rf_pos (Some (SInternal None)) 3 [([99], []); ([100], [])] rf_ops = Some [([99], Some [])].
 Proof. vm_compute. reflexivity. Qed.
+
+(* second shape of the same defect: the tree is the single leaf "c" (it is the
+   root node); Insert("c","") with the value it has: the log keeps the root
+   slot of the start version (2, 0), GetWriteLog at version 3 looks it up among
+   the ordinary node slots *)
+Lemma pathbadger_log_old_root_slot_refuted_lem :
+  ptr_class [([99], [])] rf_ops [99] = 2 /\
+  commit_writelog (run_batch [([99], [])] rf_ops) = [([99], Some [])] /\
+  make_internal (annotate 2 rf_pos [([99], [])] rf_ops) = [IInsert (2, 0)] /\
+  pb_served 2 rf_pos (Some (SLeaf [99] [])) 3 [([99], [])] rf_ops = None /\
+  (* the twin without the re-insertion has nothing to serve and nothing to fail on *)
+  commit_writelog (run_batch [([99], [])] []) = [].
+Proof. repeat split; vm_compute; reflexivity. Qed.
